@@ -129,6 +129,7 @@ impl ObjectModel<VerifVM> for VerifVM {
     const LOCAL_FORWARDING_POINTER_SPEC: VMLocalForwardingPointerSpec = specs::FWD_PTR;
     const LOCAL_FORWARDING_BITS_SPEC: VMLocalForwardingBitsSpec = specs::FWD_BITS;
     const LOCAL_MARK_BIT_SPEC: VMLocalMarkBitSpec = specs::MARK;
+    #[cfg(any(feature = "var_a", feature = "var_c"))]
     const LOCAL_PINNING_BIT_SPEC: VMLocalPinningBitSpec = specs::PIN;
     const LOCAL_LOS_MARK_NURSERY_SPEC: VMLocalLOSMarkNurserySpec = specs::LOS;
 
